@@ -595,7 +595,10 @@ class MyPyAstVisitor:
             # (str, int) are different returns
             types: dict[str, sds_types.AbstractType] = {}
             for return_stmt in return_stmts:
-                if return_stmt.expr is None:  # pragma: no cover
+                if return_stmt.expr is None:
+                    # A bare "return" returns None
+                    none_type = sds_types.NamedType(name="None", qname="builtins.None")
+                    types.setdefault(str(none_type.to_dict()), none_type)
                     continue
 
                 if not isinstance(return_stmt.expr, mp_nodes.CallExpr | mp_nodes.MemberExpr):
